@@ -678,54 +678,79 @@ def key_of(m):
     return tuple(sorted(m.items()))
 
 
-def search_pair(ck, p, t, rng, ptxt, ttxt, query=False):
+def mol_mk(ptxt, ttxt, query=False):
+    """replay prelude building p and t from their text"""
+    return ("from chython import smiles, smarts; from chython.containers import MoleculeContainer; "
+            f"p={('smarts(%r)' if query else 'smiles(%r)') % ptxt if ptxt else 'MoleculeContainer()'}; "
+            f"t={'smiles(%r)' % ttxt if ttxt else 'MoleculeContainer()'}; ")
+
+
+def int_mk(patt, targ):
+    return (f"from checks.C07 import int_graph_class; G=int_graph_class(); p=G({patt[0]!r}, {patt[1]!r}); t=G({targ[0]!r}, {targ[1]!r}); ")
+
+
+def search_pair(ck, p, t, rng, ptxt, ttxt, query=False, mk=None, scopes=None, kind=None):
+    """the property on one (pattern, target) pair of the REAL code against the brute-force enumerator; returns True when it holds"""
     kw = {'_cython': False} if query else {}
-    mk = ("from chython import smiles, smarts; from chython.containers import MoleculeContainer; "
-          f"p={('smarts(%r)' if query else 'smiles(%r)') % ptxt if ptxt else 'MoleculeContainer()'}; t=smiles({ttxt!r}); ")
+    kws = ', _cython=False' if query else ''
+    mk = mk or mol_mk(ptxt, ttxt, query)
+    kind = kind or ('query' if query else 'molecule')
+    good = True
     ref = brute(p, t)
     refset = {key_of(m) for m in ref}
-    ck.case(('search', ptxt, ttxt), nontrivial=bool(ref))
-    ck.count(f'search:{"query" if query else "molecule"}:embeddings={min(len(ref), 6)}' + ('+' if len(ref) >= 6 else ''))
+    ck.case(('search', kind, ptxt, ttxt), nontrivial=bool(ref))
+    ck.count(f'search:{kind}:embeddings={min(len(ref), 6)}' + ('+' if len(ref) >= 6 else ''))
     # (1) without the filter: exactly the embeddings, each once
     try:
         got = list(p.get_mapping(t, automorphism_filter=False, **kw))
     except Exception as e:  # noqa
         ck.counterexample('empty-pattern' if not len(p) else f'raises:{ptxt}>{ttxt}', f'get_mapping raises {type(e).__name__}',
                           {'pattern': ptxt, 'target': ttxt}, type(e).__name__, f'{len(ref)} mapping(s)', 'brute-force enumeration of injective maps',
-                          replay_py=mk + 'print(list(p.get_mapping(t, automorphism_filter=False)))')
-        return
+                          replay_py=mk + f'print(list(p.get_mapping(t, automorphism_filter=False{kws})))')
+        return False
     gotkeys = [key_of(m) for m in got]
     if set(gotkeys) != refset or len(gotkeys) != len(set(gotkeys)):
-        ck.counterexample(f'mappings:{ptxt}>{ttxt}', 'get_mapping(automorphism_filter=False) is not exactly the set of valid embeddings',
+        good = False
+        ck.counterexample(f'mappings:{ptxt}>{ttxt}', 'get_mapping(automorphism_filter=False) is not exactly the set of valid embeddings '
+                          '(lost, spurious or repeated mapping)',
                           {'pattern': ptxt, 'target': ttxt}, sorted(gotkeys), sorted(refset), 'brute-force enumeration of injective maps',
-                          replay_py=mk + f'print(list(p.get_mapping(t, automorphism_filter=False{", _cython=False" if query else ""})))')
+                          replay_py=mk + f'print(list(p.get_mapping(t, automorphism_filter=False{kws})))')
     # (2) with the filter: one mapping per distinct set of image atoms, none lost
     got = list(p.get_mapping(t, automorphism_filter=True, **kw))
     images = [frozenset(m.values()) for m in got]
     if any(key_of(m) not in refset for m in got) or len(images) != len(set(images)) or set(images) != {frozenset(m.values()) for m in ref}:
+        good = False
         ck.counterexample(f'filter:{ptxt}>{ttxt}', 'automorphism filter loses / duplicates an image set',
                           {'pattern': ptxt, 'target': ttxt}, sorted(map(sorted, images)), sorted({tuple(sorted(m.values())) for m in ref}),
                           'brute-force enumeration of injective maps',
-                          replay_py=mk + f'print(list(p.get_mapping(t{", _cython=False" if query else ""})))')
-    # (3) scope: exactly the embeddings inside it
+                          replay_py=mk + f'print(list(p.get_mapping(t{kws})))')
+    # (3) scope: exactly the embeddings inside it (with and without the filter)
     atoms = list(t._atoms)
-    for scope in ([x for x in atoms if rng.random() < .6], [x for x in atoms if rng.random() < .3] + [10 ** 6], []):
-        refs = {key_of(m) for m in brute(p, t, set(scope))}
+    if scopes is None:
+        scopes = ([x for x in atoms if rng.random() < .6], [x for x in atoms if rng.random() < .3] + [10 ** 6], [])
+    for scope in scopes:
+        if scope is None:
+            continue
+        refsc = brute(p, t, set(scope))
+        refs = {key_of(m) for m in refsc}
         got = list(p.get_mapping(t, automorphism_filter=False, searching_scope=scope, **kw))
         gk = [key_of(m) for m in got]
-        if set(gk) != refs or len(gk) != len(set(gk)):
-            ck.counterexample('scope-empty' if not scope else f'scope:{ptxt}>{ttxt}:{scope}',
+        gotf = list(p.get_mapping(t, automorphism_filter=True, searching_scope=list(scope), **kw))
+        imf = [frozenset(m.values()) for m in gotf]
+        if set(gk) != refs or len(gk) != len(set(gk)) or any(key_of(m) not in refs for m in gotf) or len(imf) != len(set(imf)) \
+                or set(imf) != {frozenset(m.values()) for m in refsc}:
+            good = False
+            ck.counterexample('scope-empty' if not scope and len(p) else f'scope:{ptxt}>{ttxt}:{scope}',
                               'searching_scope does not return exactly the embeddings inside the scope' +
-                              (' (an EMPTY scope is falsy in `if searching_scope:` and searches everything)' if not scope else ''),
+                              (' (an EMPTY scope must yield no mapping for a pattern with atoms)' if not scope else ''),
                               {'pattern': ptxt, 'target': ttxt, 'scope': scope}, sorted(gk), sorted(refs),
                               'brute-force enumeration of injective maps into the scope',
-                              replay_py=mk + f'print(list(p.get_mapping(t, searching_scope={scope!r}, automorphism_filter=False{", _cython=False" if query else ""})))')
+                              replay_py=mk + f'print(list(p.get_mapping(t, searching_scope={scope!r}, automorphism_filter=False{kws})))')
     if query:
-        return
+        return good
     # (4) operators
     sub = bool(ref)
     iso_ = brute_isomorphic(p, t)
-    rev = None
     for name, fn, want in (('is_substructure', lambda: p.is_substructure(t), sub), ('<=', lambda: p <= t, sub),
                            ('<', lambda: p < t, sub and len(p) < len(t)), ('is_equal', lambda: p.is_equal(t), iso_),
                            ('>=', lambda: t >= p, sub), ('>', lambda: t > p, sub and len(p) < len(t))):
@@ -734,8 +759,190 @@ def search_pair(ck, p, t, rng, ptxt, ttxt, query=False):
         except Exception as e:  # noqa
             v = type(e).__name__
         if v is not want:
+            good = False
             ck.counterexample(f'operator:{name}:{ptxt}>{ttxt}', f'{name} disagrees with the set of embeddings', {'pattern': ptxt, 'target': ttxt, 'op': name},
-                              v, want, 'brute-force enumeration', replay_py=mk + 'print(p.is_substructure(t), p.is_equal(t), p < t, p <= t)')
+                              v, want, 'brute-force enumeration', replay_py=mk + 'print(p.is_substructure(t), p.is_equal(t), p < t, p <= t, t > p, t >= p)')
+    return good
+
+
+def search_int_pair(ck, G, patt, targ, rng, scopes=None):
+    return search_pair(ck, G(*patt), G(*targ), rng, repr(patt), repr(targ), mk=int_mk(patt, targ), scopes=scopes, kind='int-graph')
+
+
+def cut_int_pattern(rng, targ, size):
+    """induced sub-graph of an integer-labelled graph on `size` random nodes, renumbered, insertion order shuffled"""
+    tn = list(targ[0])
+    keep = rng.sample(tn, min(size, len(tn)))
+    ren = {x: 20 + k for k, x in enumerate(rng.sample(keep, len(keep)))}
+    qa = {ren[x]: targ[0][x] for x in keep}
+    qb = {ren[x]: {} for x in keep}
+    es = [(x, y) for x in keep for y in targ[1][x] if y in ren and x < y]
+    rng.shuffle(es)
+    for x, y in es:
+        qb[ren[x]][ren[y]] = targ[1][x][y]
+        qb[ren[y]][ren[x]] = targ[1][x][y]
+    return qa, qb
+
+
+def search_int(ck, n):
+    """dense integer-labelled graphs (many ring closures, several components): what molecules rarely exercise"""
+    rng = random.Random(f'{ck.seed}:search-int')
+    G = int_graph_class()
+    for i in range(n):
+        targ = random_graph(rng, 6, labels=(6, 7) if i % 2 else (6,), orders=(1, 2) if i % 3 else (1,))
+        if rng.random() < .6:
+            patt = cut_int_pattern(rng, targ, rng.randint(1, 4))
+        else:
+            patt = random_graph(rng, 4, labels=(6, 7) if i % 2 else (6,), orders=(1, 2) if i % 3 else (1,))
+        search_int_pair(ck, G, patt, targ, rng)
+
+
+def brute_automorphisms(classes, bonds):
+    """non-identity class- and bond-preserving bijections that map every component onto itself (what _get_automorphism_mapping enumerates)"""
+    comp = own_components(bonds)
+    nodes = list(classes)
+    out = []
+    f = {}
+
+    def rec(i):
+        if i == len(nodes):
+            if any(k != v for k, v in f.items()):
+                out.append(key_of(f))
+            return
+        x = nodes[i]
+        for y in nodes:
+            if y in f.values() or classes[x] != classes[y] or comp[x] != comp[y]:
+                continue
+            if all((bonds[x].get(x2) is None) == (bonds[y].get(y2) is None) and
+                   (bonds[x].get(x2) is None or bonds[x][x2] == bonds[y][y2]) for x2, y2 in f.items()):
+                f[x] = y
+                rec(i + 1)
+                del f[x]
+    rec(0)
+    return out
+
+
+def search_automorphism(ck, mols):
+    """mol.get_automorphism_mapping(): every yielded mapping is a non-identity automorphism (atoms, bonds, morgan classes);
+    all of them are found, each once (nothing at all when every atom has a class of its own)"""
+    for txt_, m in mols:
+        if not len(m) or len(m) > 9:
+            continue
+        classes = dict(m._chiral_morgan)
+        bonds = {n: {k: int(bd) for k, bd in ms.items()} for n, ms in m._bonds.items()}
+        want = [] if len(set(classes.values())) == len(classes) else brute_automorphisms(classes, bonds)
+        try:
+            got = [key_of(x) for x in m.get_automorphism_mapping()]
+        except Exception as e:  # noqa
+            got = type(e).__name__
+        ck.case(('search-auto', txt_), nontrivial=bool(want))
+        ck.count(f'search:automorphism:{"some" if want else "none"}')
+        if got == type(got).__name__ or sorted(got) != sorted(want):
+            ck.counterexample(f'automorphism:{txt_}', 'get_automorphism_mapping is not exactly the set of non-identity automorphisms',
+                              {'molecule': txt_}, got, sorted(want), 'brute-force enumeration of class-preserving bijections',
+                              replay_py=f'from chython import smiles; print(list(smiles({txt_!r}).get_automorphism_mapping()))')
+
+
+def search_lazy_product(ck, n):
+    """lazy_product against itertools.product, as multisets"""
+    from chython._functions import lazy_product
+    rng = random.Random(f'{ck.seed}:search-lp')
+    for _ in range(n):
+        args = [[rng.randint(0, 3) for _ in range(rng.randint(0, 4))] for _ in range(rng.randint(0, 4))]
+        want = sorted(itertools.product(*args))
+        try:
+            got = sorted(lazy_product(*[iter(x) for x in args]))
+        except Exception as e:  # noqa
+            got = type(e).__name__
+        ck.case(('search-lp', repr(args)), nontrivial=bool(want))
+        if got != want:
+            ck.counterexample(f'lazy_product:{args}', 'lazy_product is not the cartesian product (as a multiset)', {'args': args}, got, want,
+                              'itertools.product', replay_py=f'from chython._functions import lazy_product; print(list(lazy_product(*{args!r})))')
+
+
+def directed(ck, failing):
+    """the correspondence disagreed on these cases: run the property-level oracle (brute force) on the REAL code on and around them.
+    A concrete failing input becomes a counterexample; if none is found the caller's `unchecked` stands."""
+    from chython import smiles, smarts
+    from chython.containers import MoleculeContainer
+    rng = random.Random(f'{ck.seed}:directed')
+    G = int_graph_class()
+    seen = set()
+    budget = 400
+
+    def mol(x):
+        return smiles(x) if x else MoleculeContainer()
+
+    def int_around(patt, targ, scope):
+        sc = [None if scope is None else list(scope), [], list(targ[0])[::2]]
+        search_int_pair(ck, G, patt, targ, rng, scopes=sc)
+        search_int_pair(ck, G, patt, patt, rng)
+        for k in range(1, min(4, len(targ[0])) + 1):       # every size of pattern cut from the target
+            search_int_pair(ck, G, cut_int_pattern(rng, targ, k), targ, rng)
+        nodes = list(patt[0])
+        for drop in nodes[:4]:                               # the pattern minus one atom
+            keep = [x for x in nodes if x != drop]
+            sub = ({x: patt[0][x] for x in keep}, {x: {y: v for y, v in patt[1][x].items() if y != drop} for x in keep})
+            search_int_pair(ck, G, sub, targ, rng)
+
+    for meta in failing:
+        if budget <= 0:
+            break
+        key = repr(meta)[:2000]
+        if key in seen:
+            continue
+        seen.add(key)
+        budget -= 1
+        kind = meta[0]
+        try:
+            if kind == 'Isomorphism._get_mapping':
+                _, _, patt, targ, flt, scope = meta
+                int_around(patt, targ, scope)
+            elif kind == '_get_mapping':
+                _, _, patt, targ, scope = meta
+                int_around(patt, targ, scope)
+            elif kind == 'compile':
+                _, _, atoms, bonds = meta
+                if atoms and set(atoms) == set(bonds) and all(m in bonds and n != m and bonds[m].get(n) == bd for n, ms in bonds.items() for m, bd in ms.items()):
+                    int_around((atoms, bonds), (atoms, bonds), None)     # a well-formed graph: as pattern on itself
+            elif kind == 'MoleculeContainer.get_mapping':
+                _, _, ptxt, ttxt, flt, scope = meta
+                t = mol(ttxt)
+                if len(t) <= 40:
+                    search_pair(ck, mol(ptxt), t, rng, ptxt, ttxt, scopes=[scope, [], list(t._atoms)[::2]])
+            elif kind == 'operator':
+                _, _, _, ptxt, ttxt = meta
+                t = mol(ttxt)
+                if len(t) <= 40:
+                    search_pair(ck, mol(ptxt), t, rng, ptxt, ttxt)
+                    search_pair(ck, t, mol(ptxt), rng, ttxt, ptxt)
+            elif kind == 'QueryContainer.get_mapping(_cython=False)':
+                _, s, ttxt, flt, scope = meta
+                t = mol(ttxt)
+                if len(t) <= 40:
+                    search_pair(ck, smarts(s), t, rng, s, ttxt, query=True, scopes=[scope, []])
+            elif kind == 'lazy_product':
+                search_lazy_product(ck, 300)
+                budget -= 20
+            elif kind in ('get_automorphism_mapping', '_get_automorphism_mapping'):
+                if kind == 'get_automorphism_mapping':
+                    search_automorphism(ck, [(meta[1], smiles(meta[1]))])
+                else:
+                    _, atoms, bonds = meta
+                    want = [] if len(set(atoms.values())) == len(atoms) else brute_automorphisms(atoms, bonds)
+                    from chython.algorithms.isomorphism import _get_automorphism_mapping
+                    got = sorted(key_of(x) for x in _get_automorphism_mapping(atoms, bonds))
+                    if got != sorted(want):
+                        ck.counterexample(f'automorphism-int:{atoms}:{bonds}', '_get_automorphism_mapping is not exactly the set of non-identity '
+                                          'automorphisms', {'atoms': atoms, 'bonds': bonds}, got, sorted(want), 'brute force',
+                                          replay_py='from chython.algorithms.isomorphism import _get_automorphism_mapping; '
+                                                    f'print(list(_get_automorphism_mapping({atoms!r}, {bonds!r})))')
+        except Exception as e:  # noqa  (the oracle itself must not hide the disagreement)
+            ck.count(f'directed:oracle-error:{type(e).__name__}')
+    # and the general-purpose searches at a higher volume
+    search_int(ck, 600)
+    search_lazy_product(ck, 500)
+    ck.extra['directed_cases'] = len(seen)
 
 
 def search(ck):
@@ -761,10 +968,21 @@ def search(ck):
         if t is not None and 0 < len(t) <= 8:
             targets.append((txt, t))
     patterns = [(x, smiles(x)) for x in SMALL_PATTERNS if len(smiles(x)) <= 6]
+    queries = {}
+    for s in SMARTS:
+        try:
+            q = smarts(s)
+        except Exception:  # noqa
+            continue
+        if not any(getattr(a, 'stereo', None) is not None for a in q._atoms.values()):
+            queries[s] = q
     npairs = 0
-    # the two recorded findings first, on minimal inputs: an empty scope, and the empty pattern (exactly one, empty, embedding)
+    # the two repaired defects first, on minimal inputs: an empty scope, and the empty pattern (exactly one, empty, embedding);
+    # and the empty target
     search_pair(ck, smiles('C'), smiles('CCO'), rng, 'C', 'CCO')
     search_pair(ck, MoleculeContainer(), smiles('CO'), rng, '', 'CO')
+    search_pair(ck, smiles('C'), MoleculeContainer(), rng, 'C', '')
+    search_pair(ck, MoleculeContainer(), MoleculeContainer(), rng, '', '')
     for ttxt, t in targets:
         if has_stereo(t):
             continue
@@ -779,13 +997,22 @@ def search(ck):
                 continue
             search_pair(ck, p, t, rng, ptxt, ttxt)
             npairs += 1
-        for s in rng.sample(SMARTS, 2 if ck.tier == 'quick' else 6):
-            try:
-                q = smarts(s)
-            except Exception:  # noqa
+        # query patterns: mostly ones that do hit this target (chosen with the brute-force enumerator, not with the matcher)
+        nhit, nmiss = (2, 1) if ck.tier == 'quick' else (5, 2)
+        for s in rng.sample(SMARTS, len(SMARTS)):
+            if not nhit and not nmiss:
+                break
+            q = queries.get(s)
+            if q is None:
                 continue
-            search_pair(ck, q, t, rng, s, ttxt, query=True)
-            npairs += 1
+            hit = bool(brute(q, t))
+            if (hit and nhit) or (not hit and nmiss):
+                nhit, nmiss = (nhit - 1, nmiss) if hit else (nhit, nmiss - 1)
+                search_pair(ck, q, t, rng, s, ttxt, query=True)
+                npairs += 1
+    search_int(ck, 250 if ck.tier == 'quick' else 4000)
+    search_lazy_product(ck, 200 if ck.tier == 'quick' else 3000)
+    search_automorphism(ck, targets)
     ck.extra['search_pairs'] = npairs
 
 
@@ -807,6 +1034,8 @@ def run(ck):
                         'search: brute force over all injective maps, targets <= 8 atoms; non-trivial = at least one embedding exists')
     proved = common.standard_proof_steps(ck, translators=[])   # no generated tables: the model is hand-written
     tied, failing = correspondence(ck)
+    if not tied:
+        directed(ck, failing)
     search(ck)
     ck.extra['proved'] = proved
     ck.extra['tied'] = tied
